@@ -36,15 +36,43 @@ Proof.
   destruct H as [A [B _]]. unfold page_inert. rewrite A, B, evs_eqb_refl. reflexivity.
 Qed.
 
+Lemma ct_html_markup : is_markup_type ct_html = true.
+Proof. reflexivity. Qed.
+Lemma ct_json_json : is_json_type ct_json = true /\ is_markup_type ct_json = false.
+Proof. split; reflexivity. Qed.
+
+(* a further (Accept, XHR) combination on which the handler does what the model says: the same
+   page under an HTML type, or the JSON body under the JSON type *)
+Lemma var_same_page_ok real benign :
+  page_inert real benign = true ->
+  var_mismatch real [] (Var 0 ct_html None None) = false /\ var_holds real benign (Var 0 ct_html None None) = true.
+Proof.
+  intros H. split.
+  - cbn. rewrite str_eqb_refl. reflexivity.
+  - unfold var_holds, var_body, var_benign, resp_inert. rewrite ct_html_markup. exact H.
+Qed.
+
+Lemma var_json_ok svc data real benign :
+  let jm := model_json svc data in
+  var_mismatch real jm (Var 1 ct_json (Some [SLit jm]) None) = false /\
+  var_holds real benign (Var 1 ct_json (Some [SLit jm]) None) = true.
+Proof.
+  cbn zeta. unfold var_mismatch, var_holds, var_body, var_benign, resp_inert.
+  cbn [rebuild N.eqb]. rewrite app_nil_r, str_eqb_refl.
+  destruct ct_json_json as [J M]. rewrite J, M. split; [reflexivity|].
+  unfold model_json. destruct (svc =? 0); [apply proxy_xhr_json_ok | apply auth_error_json_ok].
+Qed.
+
 Lemma judge_page_model svc name F d d0 real segs via :
   page_safe (tpls_of svc) name = true -> output_only (tpls_of svc) name F = true ->
   rec_agree F d d0 ->
   render_page (tpls_of svc) name d = Some real -> render_page (tpls_of svc) name d0 = Some (rebuild real segs) ->
-  judge (CPage svc name d real segs via) = 0.
+  judge (CPage svc name d ct_html real segs via []) = 0.
 Proof.
   intros Hs Ho Hr R1 R2. cbn [judge]. rewrite R1.
+  unfold resp_inert. rewrite ct_html_markup.
   rewrite (page_monitor_accepts_model _ _ _ Hs Ho d d0 real _ Hr R1 R2).
-  cbn [option_eqb]. rewrite str_eqb_refl. reflexivity.
+  cbn [option_eqb existsb forallb]. rewrite str_eqb_refl. reflexivity.
 Qed.
 
 Lemma judge_hole_model svc page field ctx payload :
@@ -56,9 +84,10 @@ Proof.
 Qed.
 
 Lemma judge_json_model svc msg :
-  judge (CJson svc msg (if svc =? 0 then proxy_xhr_json msg else auth_error_json msg)) = 0.
+  judge (CJson svc msg ct_json (if svc =? 0 then proxy_xhr_json msg else auth_error_json msg) []) = 0.
 Proof.
-  cbn [judge]. destruct (svc =? 0).
+  cbn [judge]. unfold resp_inert. destruct ct_json_json as [J M]. rewrite J, M.
+  destruct (svc =? 0).
   - rewrite proxy_xhr_json_ok, str_eqb_refl. reflexivity.
   - rewrite auth_error_json_ok, str_eqb_refl. reflexivity.
 Qed.
@@ -66,8 +95,22 @@ Qed.
 (* a call site whose page is independent of the hostile inputs: same bytes as the benign run, and
    (being a rendering of a safe template) ending in the data state *)
 Lemma judge_same_model svc site real segs :
-  rebuild real segs = real -> final_state real = SData -> judge (CSame svc site real segs) = 0.
+  rebuild real segs = real -> final_state real = SData -> judge (CSame svc site ct_html real segs []) = 0.
 Proof.
-  intros R F. cbn [judge]. rewrite R, str_eqb_refl. unfold page_inert.
-  rewrite evs_eqb_refl, F. reflexivity.
+  intros R F. cbn [judge]. rewrite R, str_eqb_refl. unfold resp_inert, page_inert.
+  rewrite ct_html_markup, evs_eqb_refl, F. reflexivity.
+Qed.
+
+(* the response monitor really constrains markup types: a body served as HTML whose structure
+   differs from the benign body is rejected, whatever the handler meant it to be *)
+Lemma resp_inert_html_needs_skeleton body benign :
+  resp_inert ct_html body benign = true -> skeleton body = skeleton benign.
+Proof.
+  unfold resp_inert. rewrite ct_html_markup. unfold page_inert. intros H.
+  apply andb_true_iff in H as [H _]. unfold evs_eqb in H.
+  revert H. generalize (skeleton body) (skeleton benign).
+  induction l as [|x l IH]; intros [|y l']; cbn [list_eqb]; try discriminate; [reflexivity|].
+  intros H. apply andb_true_iff in H as [E H]. f_equal; [|apply IH; exact H].
+  destruct x, y; cbn in E; try discriminate; try reflexivity;
+    try (apply Bool.eqb_prop in E; subst; reflexivity); apply N.eqb_eq in E; subst; reflexivity.
 Qed.
